@@ -574,7 +574,7 @@ class Orientation(Misorientation):
         >>> O1.dot(O2)
         array([0.92387953, 0.92387953])
         """
-        symmetry = _get_unique_symmetry_elements(self.symmetry, other.symmetry)
+        symmetry = _get_unique_symmetry_elements(other.symmetry, self.symmetry)
         M = other * ~self
         all_dot_products = Rotation(M).dot_outer(symmetry)
         highest_dot_products = np.max(all_dot_products, axis=-1)
@@ -607,7 +607,7 @@ class Orientation(Misorientation):
         array([[0.92387953, 1.        ],
                [1.        , 0.92387953]])
         """
-        symmetry = _get_unique_symmetry_elements(self.symmetry, other.symmetry)
+        symmetry = _get_unique_symmetry_elements(other.symmetry, self.symmetry)
         M = other.outer(~self)
         all_dot_products = Rotation(M).dot_outer(symmetry)
         highest_dot_products = np.max(all_dot_products, axis=-1)
@@ -848,7 +848,7 @@ class Orientation(Misorientation):
         To read the dot products array `dparr` into memory, do
         `dp = dparr.compute()`.
         """
-        symmetry = _get_unique_symmetry_elements(self.symmetry, other.symmetry)
+        symmetry = _get_unique_symmetry_elements(other.symmetry, self.symmetry)
         M = other._outer_dask(~self, chunk_size=chunk_size)
 
         # Summation subscripts
